@@ -245,13 +245,44 @@ def bad(what, fid=None):
     return {"what": what, "fid": fid}
 
 
+class _Hang(Exception):
+    pass
+
+
+def _guarded(fn, arg, seconds=30):
+    """run fn(arg) in this (worker) process, but give up after `seconds`: rejection sampling in the library
+    loops for ever when the cell polygon and the sampling box do not meet (seen with mutants)"""
+    import signal
+
+    def on_alarm(signum, frame):
+        raise _Hang()
+    old = signal.signal(signal.SIGALRM, on_alarm)
+    signal.setitimer(signal.ITIMER_REAL, seconds)
+    try:
+        return fn(arg)
+    finally:
+        signal.setitimer(signal.ITIMER_REAL, 0)
+        signal.signal(signal.SIGALRM, old)
+
+
 def run_case(job):
     """job = (edge, seed) -> (n_ok, [problems]); a problem = {'what', 'fid'}"""
+    try:
+        return _guarded(_run_case, job)
+    except _Hang:
+        c = job[0]["post"]
+        return 0, [bad(f"{c['op']} {c.get('s', c.get('cl'))} rotation {c.get('rot')}: the call did not return within 30 s "
+                       f"(rejection sampling never finds a point inside the cell)")]
+
+
+def _run_case(job):
     e, seed = job
     op = e["post"]["op"]
     try:
         return {"contain": rc_contain, "border": rc_border, "layout": rc_layout, "distmat": rc_distmat, "wrap": rc_wrap,
                 "place": rc_place, "placecl": rc_place, "pproc": rc_pproc}[op](e, seed)
+    except _Hang:
+        raise
     except Exception as ex:  # a library call raised on a legal input
         import traceback
         tb = traceback.extract_tb(ex.__traceback__)[-1]
@@ -549,6 +580,14 @@ def _mut_new(alpha, call):
 
 
 def mut_path(job):
+    try:
+        return _guarded(_mut_path, job, 60)
+    except _Hang:
+        return 0, [bad(f"setter history {[_call_text(job[0], x['post']['call']) for x in job[1]]}: a call did not return "
+                       f"within 60 s (rejection sampling never finds a point inside the cell)")]
+
+
+def _mut_path(job):
     """job = (alpha, edges, seed) -> (steps_ok, problems): one history of setter calls on a real object"""
     from pyphysim.cell import cell
     alpha, edges, seed = job
@@ -624,6 +663,8 @@ def mut_path(job):
                         if not (close(sc.pos, pc(st["secc"][j])) and close(sc.radius, qf(st["secr"])) and sc.rotation == st["secrot"]):
                             what = f"sector {j + 1} is stale (centre {sc.pos:.4f}, radius {sc.radius:.4f}, rotation {sc.rotation})"
                             break
+        except _Hang:
+            raise
         except Exception as ex:
             what = f"raised {type(ex).__name__}: {ex}"
         if what:
